@@ -46,7 +46,9 @@ THEOREMS = {
     "C18": ["series_disambiguation_fit", "series_disambiguation_predict", "column_roundtrip", "caller_cells_untouched", "arms_by_value"],
     "C19": ["copy_bisimilar", "copy_independent", "copy_equal", "shared_copy_counterexample", "noninterference_private"],
     "C20": ["fit_perm", "partialFit_perm", "fitRec_perm", "rowsOf_perm", "shift_greedy", "shift_ucb", "shift_softmax_invariant",
-            "addXty_scale", "gram_ignores_rewards", "listMax_shift"],
+            "addXty_scale", "gram_ignores_rewards", "listMax_shift",
+            "rowsOf_relabel", "fitRec_relabel", "fit_relabel", "partialFit_relabel", "addArm_relabel", "removeArm_relabel",
+            "init_relabel", "stepOp_relabel", "run_relabel", "expDict_relabel", "argmaxFirst_relabel", "init_run_relabel"],
 }
 
 IMPORTS = {
@@ -69,7 +71,7 @@ IMPORTS = {
     "C17": ["MabModel.Props.C17"],
     "C18": ["MabModel.Props.C18"],
     "C19": ["MabModel.Props.C19"],
-    "C20": ["MabModel.Props.C20"],
+    "C20": ["MabModel.Props.C20", "MabModel.Props.C20b"],
 }
 
 
